@@ -1,7 +1,7 @@
 SPECIFICATION Spec
 CONSTANTS
-  Tier = "quick"
+  Tier = "thorough"
   Canonical = FALSE
-  T <- RefT
+  Mode = "design"
 INVARIANT LawsHoldOutsideZones
 INVARIANT SortTotalOutsideZones
